@@ -110,6 +110,13 @@ Section Parser.
   Variable int_ok : node -> bool.          (* yaml.Node.Decode into a Go int succeeds (group limit, fix a6b0afc) *)
   Variable null_ok : node -> bool.         (* yaml.Node.Decode into `any` succeeds and yields nil (fix b9483ac; only asked of scalars tagged !!null) *)
 
+  (** strict.go: kindMismatch (fixes b22de24, 4a0d172): an explicit tag that contradicts what the node (read through an
+      alias) really is; a null SCALAR (`rules:` with no value) is fine everywhere, a mapping or list tagged !!null is still
+      judged by its kind. *)
+  Definition kind_mismatch (n : node) (k : kind) : bool :=
+    let m := match n_alias n with Some t => t | None => n end in
+    if (String.eqb (n_tag m) nullTag && kind_eqb (n_kind m) KScalar)%bool then false else negb (kind_eqb (n_kind m) k).
+
   (** models.go: newYamlNode (line extent only; offsetColumn only moves columns) *)
   Definition new_yaml_node (lines : list string) (off_line : nat) (n : node) (min_col : nat) : ynode :=
     let '(f, l) := plines lines n min_col in
@@ -146,7 +153,7 @@ Section Parser.
     match l with
     | [] => None
     | (k, v) :: r =>
-        if negb (is_tag (n_tag v) strTag) then
+        if (negb (is_tag (n_tag v) strTag) || kind_mismatch v KScalar)%bool then
           Some ({| pe_line := n_line v + off_line;
                    pe_msg := fld ++ " " ++ n_value k ++ " value must be a string, got " ++ describe_tag (n_tag v) ++ " instead" |}, lines)
         else if mem_str (n_value k) seen then
@@ -251,11 +258,11 @@ Section Parser.
              end
     end.
 
-  Fixpoint first_bad_tag (want : string) (l : list (string * option node)) : option (string * node) :=
+  Fixpoint first_bad_tag (want : string) (kd : kind) (l : list (string * option node)) : option (string * node) :=
     match l with
     | [] => None
-    | (k, Some n) :: r => if negb (is_tag (n_tag n) want) then Some (k, n) else first_bad_tag want r
-    | (_, None) :: r => first_bad_tag want r
+    | (k, Some n) :: r => if (negb (is_tag (n_tag n) want) || kind_mismatch n kd)%bool then Some (k, n) else first_bad_tag want kd r
+    | (_, None) :: r => first_bad_tag want kd r
     end.
 
   (** fix d65cbbf: record/alert/expr set to a null spelled with text (~, null) *)
@@ -326,14 +333,14 @@ Section Parser.
       match rec, s_ann s with
       | Some _, Some (_, m) => er (fst (ymap_lines m)) "invalid field 'annotations' in recording rule"
       | _, _ => None end;
-      match first_bad_tag strTag [("record", onode rec); ("alert", onode al); ("expr", onode ex);
+      match first_bad_tag strTag KScalar [("record", onode rec); ("alert", onode al); ("expr", onode ex);
                                   ("for", onode (s_for s)); ("keep_firing_for", onode (s_keep s))] with
       | Some (k, p) => er (n_line p + off_line) (k ++ " value must be a string, got " ++ describe_tag (n_tag p) ++ " instead")
       | None => None end;
       match first_null_text [("record", onode rec); ("alert", onode al); ("expr", onode ex)] with
       | Some (k, p) => er (n_line p + off_line) (k ++ " value must be a string, got null instead")
       | None => None end;
-      match first_bad_tag mapTag [("labels", onode (s_labels s)); ("annotations", onode (s_ann s))] with
+      match first_bad_tag mapTag KMapping [("labels", onode (s_labels s)); ("annotations", onode (s_ann s))] with
       | Some (k, p) => er (n_line p + off_line) (k ++ " value must be a mapping, got " ++ describe_tag (n_tag p) ++ " instead")
       | None => None end;
       validate_string_map "labels" (match s_labels s with Some (p, _) => mapping_nodes p | None => [] end) off_line (first, last);
@@ -379,12 +386,6 @@ Section Parser.
     end.
 
   (** ---- strict.go ---- *)
-
-  (** kindMismatch (fix b22de24): an explicit tag that contradicts what the node (read through an alias) really is;
-      nodes tagged !!null are never a mismatch (an empty `rules:` stays legal). *)
-  Definition kind_mismatch (n : node) (k : kind) : bool :=
-    let m := match n_alias n with Some t => t | None => n end in
-    if String.eqb (n_tag m) nullTag then false else negb (kind_eqb (n_kind m) k).
 
   (** parseRuleStrict *)
   Fixpoint bad_rule_key (parts : list node) : option node :=
